@@ -154,6 +154,9 @@ class _UnconditionalPlanar(AbstractBijection):
         """
         wtu = self._act_scale @ self.weight
         m_wtu = -1 + jnp.log(1 + nn.softplus(wtu))
+        if self.negative_slope is not None:
+            # leaky relu has slopes 1 and negative_slope: 1 + slope * w^T u > 0 is needed for both
+            m_wtu = m_wtu / max(1.0, self.negative_slope)
         return self._act_scale + (m_wtu - wtu) * self.weight / norm(self.weight) ** 2
 
     def inverse(self, y, condition=None):
